@@ -79,7 +79,7 @@ def peer(name="p1", remote="10.0.0.2", localAS=65001, remoteAS=65002, hold=90,
 
 def step(op, **kw):
     d = {"op": op, "peer": "", "conn": "", "src": "", "dst": "", "b": [], "chunks": [],
-         "d": 0, "w": 0, "call": "", "addr": ""}
+         "d": 0, "w": 0, "call": "", "addr": "", "multi": []}
     d.update(kw)
     return d
 
